@@ -1,0 +1,12 @@
+use super::Vt;
+use crate::verif::VerifState;
+
+impl Vt {
+    /// Snapshot of the hidden state (read-only; `verif` feature only).
+    pub fn verif_state(&self) -> VerifState {
+        let mut state = self.terminal.verif_state();
+        state.parser = Some(self.parser.verif_state());
+
+        state
+    }
+}
